@@ -425,12 +425,15 @@ reg('C09', 'exploration',
 
 
 reg('C12', 'exploration',
-    'Tier A: for all 17 shipped schemes the product of documented option '
+    'Tier A: for all 17 shipped schemes (and SchemeChooser over four of '
+    'them, every default x every choice) the product of documented option '
     'values x dim x with/without solid arrays x clean on/off: '
     'setup_properties + get_equations + configure_solver, then every '
     'array argument of every equation hook, stepper method and precomputed '
     'symbol must name an existing property or constant of the right array '
-    'and C type/stride (static check), and for configurations within '
+    'with an integral C type where the equation reads it into a declared '
+    'int or uses it as an index, and with the stride the sources declare it '
+    'with (static check), and for configurations within '
     'distance 1 of the defaults the code is generated and compiled. Tier '
     'B: around the defaults the problem is compiled and run for two steps; '
     'all values must stay finite.',
